@@ -31,6 +31,8 @@ Model(ev) == G!Gensalt(Enabled, ev.prefixnull = 1, ev.prefix, ev.cd, ev.rbnull =
 \* enough caller bytes are really there for the model to index (a short buffer with a larger
 \* nrbytes is a caller contract violation and is not generated)
 WellFormed(ev) == ev.rbnull = 1 \/ ev.nrbytes <= Len(ev.rb)
+\* the exact model can be evaluated: with auto-entropy it needs the bytes the interposed OS source handed out
+Evaluable(ev) == ev.rbnull = 0 \/ MethodOfEv(ev) = "none" \/ Len(ev.ent) >= G!AutoBytes[MethodOfEv(ev)]
 
 ModelAgrees(ev, mo) ==
   IF ~mo.ok THEN ~Success(ev)
@@ -90,12 +92,15 @@ C12_Salt(ev, m) ==
 C12_Flip(ev) ==
   (ev.fprev > 0 /\ ev.fprev < l /\ IsGs(T[ev.fprev].e) /\ Success(T[ev.fprev]) /\ Success(ev)
      /\ T[ev.fprev].prefix = ev.prefix /\ T[ev.fprev].cd = ev.cd /\ T[ev.fprev].nrbytes = ev.nrbytes
-     /\ Size(T[ev.fprev]) = Size(ev) /\ T[ev.fprev].rb # ev.rb
+     /\ Size(T[ev.fprev]) = Size(ev) /\ T[ev.fprev].rb # ev.rb /\ Evaluable(ev) /\ Evaluable(T[ev.fprev])
      /\ LET a == Model(T[ev.fprev])  b == Model(ev) IN a.ok /\ b.ok /\ (a.str # b.str \/ a.tail # b.tail))
   => ev.res # T[ev.fprev].res
 \* auto-entropy comes from the OS source and is what the salt encodes; two fresh draws differ
 C12_Entropy(ev) ==
   /\ ((ev.rbnull = 1 /\ Success(ev) /\ MethodOfEv(ev) # "nt") => ev.entcalls >= 1)
+  \* rbytes == NULL means "draw from the OS", whatever nrbytes says: an acceptable count and the documented buffer succeed
+  /\ ((ev.rbnull = 1 /\ MethodOfEv(ev) # "none" /\ Size(ev) >= G!GENSALT_OUTPUT_SIZE
+        /\ G!DocCost(MethodOfEv(ev), ev.cd).k # "reject") => Success(ev))
   /\ ((ev.fresh = 1 /\ ev.gprev > 0 /\ ev.gprev < l /\ IsGs(T[ev.gprev].e) /\ T[ev.gprev].fresh = 1 /\ Success(ev)
         /\ Success(T[ev.gprev]) /\ MethodOfEv(ev) # "nt") => ev.res # T[ev.gprev].res)
 \* ---- C13 ----------------------------------------------------------------
@@ -138,7 +143,11 @@ JudgeGs(ev) ==
   ELSE
   [viol |->
      (IF m = "none" THEN Chk(~Success(ev), "C10", "UnknownPrefixAccepted")
-      ELSE Chk(C10_Safe(ev, m), "C10", "Safe") \cup Chk(C11_Cost(ev, m), "C11", "Cost")
+      ELSE IF ~C10_Safe(ev, m)
+        \* a "successful" result that is not even a well-formed setting of the method: the cost and salt readers
+        \* below presuppose the method's field structure and are not applied to it
+        THEN {V("C10", "Safe"), V("C13", "ValidSetting"), V("C12", "Salt")} \cup Chk(C09_Erased(ev, m), "C09", "EntropyErased")
+        ELSE Chk(C11_Cost(ev, m), "C11", "Cost")
            \cup Chk(C11_Accepts(ev, m), "C11", "Accepts") \cup Chk(C12_Salt(ev, m), "C12", "Salt")
            \cup Chk(C09_Erased(ev, m), "C09", "EntropyErased"))
      \cup Chk(C10_Deterministic(ev), "C10", "Deterministic") \cup Chk(C10_Where(ev), "C10", "Where")
@@ -147,7 +156,7 @@ JudgeGs(ev) ==
      \cup Chk(C13_Local(ev), "C13", "Local") \cup Chk(C13_Monotone(ev), "C13", "Monotone")
      \cup Chk(C13_Full(ev), "C13", "Full") \cup Chk(C13_Enough(ev), "C13", "Enough")
      \cup Chk(C04_Statics(ev), "C08", "Statics") \cup Chk(C14_RA(ev), "C14", "GensaltRA"),
-   div |-> IF ev.fresh = 1 \/ ModelAgrees(ev, Model(ev)) THEN {} ELSE {[l |-> l, d |-> "gensalt-model"]}]
+   div |-> IF ev.fresh = 1 \/ ~Evaluable(ev) \/ (m # "none" /\ ~C10_Safe(ev, m)) \/ ModelAgrees(ev, Model(ev)) THEN {} ELSE {[l |-> l, d |-> "gensalt-model"]}]
 
 Init == l = 1 /\ viol = {} /\ div = {} /\ cnt = [calls |-> 0, ok |-> 0, failed |-> 0]
 Step ==
